@@ -451,6 +451,26 @@ def lift_named_closure(chunk, header_re, signature, log, where):
     chunk.lines = new_lines
 
 
+def lift_tail(chunk, start_re, signature, log, where):
+    """R28 (tail lifting): the trailing statements of a function - from the statement matched by start_re up to the function's closing brace -
+    become the body of a function with the given signature (the locals they read become parameters). Everything before is dropped."""
+    t = chunk.text()
+    cls = rsscan.classify(t)
+    occ = [m for m in re.finditer(start_re, t) if cls[m.start()] == rsscan.CODE]
+    if len(occ) != 1:
+        raise ExtractError('R28: tail anchor %r matches %d times in %s' % (start_re, len(occ), where))
+    li0 = chunk.line_index(occ[0].start())
+    # the closing brace of the enclosing function is the last line of the chunk
+    li1 = len(chunk.lines) - 1
+    while li1 > li0 and chunk.lines[li1].text.strip() == '':
+        li1 -= 1
+    if chunk.lines[li1].text.strip() != '}':
+        raise ExtractError('R28: %s does not end with a closing brace line' % where)
+    body = chunk.lines[li0:li1]
+    chunk.lines = [Line(signature + ' {', ('rw', 'R28', chunk.lines[li0].origin))] + body + [Line('}', ('rw', 'R28', chunk.lines[li1].origin))]
+    log.add('R28', where, 'statements of %s from `%s` to its end' % (where, occ[0].group(0)), signature)
+
+
 def lift_closure(chunk, index, name, log, where, extra_params=None, ret_type='Value', lead_params=None):
     """R4: the block of the index-th `Box::new(move |scope: &Scope| { .. })` closure of a build_* function
     becomes the body of `pub fn name(..) -> Value`. Leading `let v = ev(scope);` statements (operand
@@ -874,7 +894,9 @@ def build_unit(udef, cover=False):
         elif kind == 'closure':
             drop_attr_lines(chunk)
             fnkey = key
-            if part.get('closure_header'):
+            if part.get('tail_from'):
+                lift_tail(chunk, part['tail_from'], part['signature'], b.rewrites, fnkey)
+            elif part.get('closure_header'):
                 lift_named_closure(chunk, part['closure_header'], part['signature'], b.rewrites, fnkey)
             else:
                 lift_closure(chunk, part.get('index', 0), part['name'], b.rewrites, fnkey, part.get('extra_params'), part.get('ret_type', 'Value'), part.get('lead_params'))
